@@ -231,12 +231,14 @@ func loadStateAtHeight(db kaidb.Database, height uint64) *LatestBlockState {
 		panic(fmt.Errorf(`block meta not found at height %v`, height))
 	}
 	state.LastBlockHeight = blockMeta.Header.Height
-	state.LastBlockID = blockMeta.BlockID
 	state.LastBlockTime = blockMeta.Header.Time
 	state.LastBlockTotalTx = blockMeta.Header.NumTxs
-
-	appHash := rawdb.ReadAppHash(db, height)
-	state.AppHash = appHash
+	if height > 0 {
+		state.LastBlockID = blockMeta.BlockID
+		state.AppHash = rawdb.ReadAppHash(db, height)
+	}
+	// At height 0 there is no last block: the genesis state is created (MakeGenesisState) and saved with
+	// a zero LastBlockID and AppHash, which is what the first block refers to; keep it that way on reload.
 
 	lValsInfo := rawdb.ReadConsensusValidatorsInfo(db, common.BytesToHash(sp.LastValidatorsInfoHash))
 	if state.LastBlockHeight > 0 {
